@@ -201,12 +201,12 @@ def garbage(rng, valid):
 CMETA = "http://www.cellml.org/metadata/1.0#"
 NSV = {"2.0": NS2, "1.0": NS10, "1.1": NS11}
 KINDS = ["model", "import", "import_units", "import_component", "units", "unit", "component", "variable", "reset", "test_value",
-         "reset_value", "encapsulation", "component_ref", "connection", "map_components", "map_variables", "group",
+         "reset_value", "encapsulation", "component_ref", "component_ref_child", "connection", "map_components", "map_variables", "group",
          "relationship_ref", "math"]
 INJECTIONS = ["stray_attr", "stray_attr_ns", "stray_child", "stray_child_ns", "stray_text", "missing_required", "duplicate"]
 REQUIRED = {"model": ["name"], "import": ["xlink:href"], "import_units": ["units_ref", "name"], "import_component": ["component_ref", "name"],
             "units": ["name"], "unit": ["units"], "component": ["name"], "variable": ["name", "units"],
-            "reset": ["variable", "test_variable", "order"], "component_ref": ["component"], "connection": ["component_1", "component_2"],
+            "reset": ["variable", "test_variable", "order"], "component_ref": ["component"], "component_ref_child": ["component"], "connection": ["component_1", "component_2"],
             "map_components": ["component_1", "component_2"], "map_variables": ["variable_1", "variable_2"], "relationship_ref": ["relationship"]}
 
 
@@ -240,10 +240,10 @@ def base_tree(version, want):
     c1.append(math(N("apply", [], [N("eq"), N("ci", text="b"), cn("3")])))
     kids.append(N("component", [("name", "c1")], c1, "component"))
     kids.append(N("component", [("name", "c2")], [N("variable", [("name", "a2"), ("units", "u1"), iface("in")], [], None)], None))
-    cref = N("component_ref", [("component", "c1")], [N("component_ref", [("component", "c2")], [], None)], "component_ref")
+    cref = N("component_ref", [("component", "c1")], [N("component_ref", [("component", "c2")], [], "component_ref_child")], "component_ref")
     if v2 or want == "encapsulation":
         kids.append(N("encapsulation", [], [cref], "encapsulation"))
-        cref = N("component_ref", [("component", "c1")], [N("component_ref", [("component", "c2")], [], None)], None)
+        cref = N("component_ref", [("component", "c1")], [N("component_ref", [("component", "c2")], [], "component_ref_child")], None)
     if not v2 or want in ("group", "relationship_ref"):
         kids.append(N("group", [], [N("relationship_ref", [("relationship", "encapsulation")], [], "relationship_ref"), cref], "group"))
     ck = []
@@ -273,51 +273,137 @@ def xml_of(node):
     return "<%s%s>%s</%s>" % (node["tag"], a, inner, node["tag"]) if inner else "<%s%s/>" % (node["tag"], a)
 
 
-def inject(version, kind, injection, variant=0):
-    """-> document text, or None when the combination does not exist (e.g. no second required attribute)"""
+def _regular(node):
+    """indices of the attributes that are not namespace declarations"""
+    return [i for i, (k, _) in enumerate(node["attrs"]) if not k.startswith("xmlns")]
+
+
+def _add_attr(node, attr, pos):
+    reg = _regular(node)
+    if pos == "last":
+        node["attrs"].append(attr)
+    elif pos == "first":
+        node["attrs"].insert(reg[0] if reg else len(node["attrs"]), attr)
+    elif pos == "between":
+        if len(reg) < 2:
+            return False
+        node["attrs"].insert(reg[1], attr)
+    return True
+
+
+def _apply(version, kind, node, parent, injection, variant):
+    """one injection on the target node; False when the combination does not exist"""
     import copy
-    root = base_tree(version, kind)
-    hit = find_kind(root, kind)
-    if not hit:
-        return None
-    node, parent = hit
-    if injection == "stray_attr":
-        node["attrs"].append(("bogus", "1"))
-    elif injection == "stray_attr_ns":
-        node["attrs"].append(("foo:bogus", "1"))
-    elif injection == "stray_child":
-        node["kids"].insert(0, N("stray"))
-    elif injection == "stray_child_ns":
-        node["kids"].insert(0, N("foo:stray"))
-    elif injection == "stray_text":
+    import itertools
+    name, _, pos = injection.partition("@")
+    if name == "stray_attr":
+        return _add_attr(node, ("bogus", "1"), pos or "last")
+    if name == "stray_attr_ns":
+        return _add_attr(node, ("foo:bogus", "1"), pos or "last")
+    if name in ("stray_child", "stray_child_ns"):
+        kid = N("stray" if name == "stray_child" else "foo:stray")
+        if (pos or "first") == "first":
+            node["kids"].insert(0, kid)
+        else:
+            if not node["kids"]:
+                return False          # same document as 'first'
+            node["kids"].append(kid)
+        return True
+    if name == "stray_text":
         node["text"] = "stray text"
-    elif injection == "missing_required":
-        req = REQUIRED.get(kind, [])
-        if kind == "connection" and version != "2.0":
-            req = []
+        return True
+    req = REQUIRED.get(kind, [])
+    if kind == "connection" and version != "2.0":
+        req = []
+    if name == "missing_required":
         if variant < len(req):
             node["attrs"] = [(k, v) for k, v in node["attrs"] if k != req[variant]]
         elif variant == len(req) and node["kids"]:
             node["kids"] = []          # required children missing
         else:
-            return None
-    elif injection == "duplicate":
+            return False
+        return True
+    if name == "dangling":             # a required attribute that names something which does not exist / is not legal
+        if variant >= len(req):
+            return False
+        node["attrs"] = [(k, ("ghost_ref" if k == req[variant] else v)) for k, v in node["attrs"]]
+        return True
+    if name == "attr_order":           # the element's own attributes in another order
+        reg = _regular(node)
+        if len(reg) < 2:
+            return False
+        perms = list(itertools.permutations(reg))[1:]
+        if len(reg) > 3:               # 4 attributes: reverse and the three rotations
+            perms = [tuple(reversed(reg))] + [tuple(reg[i:] + reg[:i]) for i in range(1, len(reg))]
+        if variant >= len(perms):
+            return False
+        vals = [node["attrs"][i] for i in perms[variant]]
+        for slot, val in zip(reg, vals):
+            node["attrs"][slot] = val
+        return True
+    if name == "kids_reversed":
+        if len(node["kids"]) < 2:
+            return False
+        node["kids"].reverse()
+        return True
+    if name == "kids_rotated":
+        if len(node["kids"]) < 3:
+            return False
+        node["kids"] = node["kids"][1:] + node["kids"][:1]
+        return True
+    if name == "self_nested":          # the element inside itself (component_ref of the same component, units in units, ...)
+        if parent is None:
+            return False
+        node["kids"].append(copy.deepcopy(node))
+        return True
+    if name == "duplicate":
         if parent is None:
             node["kids"].append(copy.deepcopy(node["kids"][1]))   # model: duplicate a child (two units with one name)
         else:
             parent["kids"].insert(parent["kids"].index(node) + 1, copy.deepcopy(node))
+        return True
+    raise ValueError(injection)
+
+
+def inject(version, kind, injection, variant=0):
+    """-> document text, or None when the combination does not exist (e.g. no second required attribute).
+    injection = name[@position], or two of them joined by '+' (the variant goes to the second)"""
+    root = base_tree(version, kind)
+    hit = find_kind(root, kind)
+    if not hit:
+        return None
+    node, parent = hit
+    parts = injection.split("+")
+    for i, part in enumerate(parts):
+        if not _apply(version, kind, node, parent, part, variant if i == len(parts) - 1 else 0):
+            return None
     return '<?xml version="1.0" encoding="UTF-8"?>\n' + xml_of(root) + "\n"
 
 
-def injection_matrix():
+# the ORDER dimension: where a stray attribute / child sits relative to the regular ones, the regular attributes and children
+# in other orders, and stray attributes combined with a missing / dangling required attribute (loaders visit attributes and
+# children sequentially, so what they know when they meet the stray one depends on what came before)
+ORDER_INJECTIONS = ["stray_attr@first", "stray_attr@between", "stray_attr_ns@first", "stray_attr_ns@between",
+                    "stray_child@last", "stray_child_ns@last", "attr_order", "kids_reversed", "kids_rotated", "self_nested", "dangling",
+                    "stray_attr@first+missing_required", "stray_attr@last+missing_required", "stray_attr_ns@first+missing_required",
+                    "stray_attr@first+dangling", "stray_attr@last+dangling", "stray_attr@first+kids_reversed",
+                    "stray_child@first+kids_reversed"]
+VARIANTS = {"missing_required": 4, "dangling": 3, "attr_order": 5}
+
+
+def injection_matrix(order=False):
+    """base matrix (order=False) or its ORDER extension (order=True): [(name, document)] without duplicates"""
     out = []
+    seen = set()
     for version in ("2.0", "1.0", "1.1"):
         for kind in KINDS:
-            for inj in INJECTIONS:
-                for variant in range(4 if inj == "missing_required" else 1):
+            for inj in (ORDER_INJECTIONS if order else INJECTIONS):
+                nv = VARIANTS.get(inj.split("+")[-1].split("@")[0], 1)
+                for variant in range(nv):
                     d = inject(version, kind, inj, variant)
-                    if d is not None:
-                        out.append(("matrix:%s:%s:%s%s" % (version, kind, inj, (":%d" % variant) if inj == "missing_required" else ""), d))
+                    if d is not None and d not in seen:
+                        seen.add(d)
+                        out.append(("matrix%s:%s:%s:%s%s" % ("o" if order else "", version, kind, inj, (":%d" % variant) if nv > 1 else ""), d))
     return out
 
 
@@ -783,6 +869,7 @@ def run(ctx):
             docs.append(("garbage", garbage(rng, base)))
     matrix = injection_matrix()
     docs += matrix
+    docs += injection_matrix(order=True)      # kind "matrixo:...": the attribute / child ORDER dimension
     if not quick:   # matrix documents with one or two further random mutations on top
         for name, d in matrix:
             docs.append(("matrixmut:" + name.split(":", 1)[1], mutate(rng, d, rng.choice([1, 2]))))
@@ -808,7 +895,8 @@ def run(ctx):
     for kind, d in docs:
         hx = d.encode("utf-8", "replace").hex()
         # matrix documents: one line (the ~70 annotator calls are made on the other document classes)
-        for steps in (("PQVRAEM",) if kind.startswith("matrix") else ("PQVRN", "PA", "QAEM")):
+        for steps in ((("PQ" if quick else "PQV"),) if kind.startswith("matrixo") else
+                      ("PQVRAEM",) if kind.startswith("matrix") else ("PQVRN", "PA", "QAEM")):
             if steps != "PQVRN" and (kind == "garbage"):
                 continue
             slines.append("S %s %s" % (steps, hx))
